@@ -43,7 +43,8 @@ CONSTANTS
     TenantMode,   \* "actions": the tenant builds M step by step (states are pairs);
                   \* "forall": states are chain states only, the invariant quantifies over every manifest
     ExportMode,   \* "none" | "all" | "focus" | "match" | "sample"   (J2 export of enumerated pairs, see ExportP)
-    SampleMod, SampleRes   \* the seeded sample: pairs with Mix(D,M) % SampleMod = SampleRes
+    SampleMod, SampleRes,  \* the seeded sample: pairs with Mix(D,M) % SampleMod = SampleRes
+    NearMod                \* focus mode: the share 1/NearMod of the near misses (1 = all of them)
 
 VARIABLES D, M
 vars == <<D, M>>
@@ -233,10 +234,12 @@ Mix(m, d) == 31 * MixSide(m) + 17 * MixSide(d) + 5 * Len(m) + Len(d)
 Near(m, d, k) == SameGroups(m, d) /\ Dist(m, d) + EpDist(m, d) <= k
 Sampled(m, d) == Mix(m, d) % SampleMod = SampleRes
 
-\* "focus": every match, every near miss (one replica or one endpoint off) and a seeded sample of the rest;
+\* "focus": every match, the near misses (one replica or one endpoint off; all or a seeded share) and a seeded
+\*          sample of the rest;
 \* "match": every match and the sample;  "sample": the sample only;  "all": everything
 ExportP(m, d) == (\/ ExportMode = "all"
-                  \/ ExportMode = "focus"  /\ (Near(m, d, 1) \/ Sampled(m, d))
+                  \/ ExportMode = "focus"  /\ (\/ Near(m, d, 0) \/ Sampled(m, d)
+                                              \/ (Near(m, d, 1) /\ Mix(m, d) % NearMod = SampleRes % NearMod))
                   \/ ExportMode = "match"  /\ (Near(m, d, 0) \/ Sampled(m, d))
                   \/ ExportMode = "sample" /\ Sampled(m, d)) => PrintT(ToJson([d |-> d, m |-> m]))
 Export == ExportP(M, D)
